@@ -332,6 +332,10 @@ func (r *H265STRPS) syntax(c coder, stRpsIdx int, ref *H265STRPS) {
 		c.branch()
 		c.flag(&r.DeltaRpsSign)
 		c.ue(&r.AbsDeltaRpsMinus1)
+		if r.AbsDeltaRpsMinus1 > 32767 { // 7.4.8: 0 .. 2^15 − 1
+			c.fail("abs_delta_rps_minus1 %d out of range", r.AbsDeltaRpsMinus1)
+			return
+		}
 		n := ref.NumDeltaPocs() + 1
 		if !size(c, &r.UsedByCurrPicFlag, n, "used_by_curr_pic_flag") ||
 			!size(c, &r.UseDeltaFlag, n, "use_delta_flag") {
@@ -383,6 +387,7 @@ func (r *H265STRPS) syntax(c coder, stRpsIdx int, ref *H265STRPS) {
 				r.DeltaPocS1 = append(r.DeltaPocS1, d)
 			}
 		}
+		r.checkRange(c)
 		return
 	}
 	c.ue(&r.NumNegativePics)
@@ -411,6 +416,30 @@ func (r *H265STRPS) syntax(c coder, stRpsIdx int, ref *H265STRPS) {
 		c.flag(&r.UsedByCurrPicS1Flag[i])
 		d += int(r.DeltaPocS1Minus1[i]) + 1 // (7-66), (7-68)
 		r.DeltaPocS1 = append(r.DeltaPocS1, d)
+	}
+	for _, v := range append(append([]uint32(nil), r.DeltaPocS0Minus1...), r.DeltaPocS1Minus1...) {
+		if v > 32767 { // 7.4.8: delta_poc_sX_minus1 in 0 .. 2^15 − 1
+			c.fail("delta_poc_minus1 %d out of range", v)
+			return
+		}
+	}
+	r.checkRange(c)
+}
+
+// checkRange insists that every picture order count difference of the set lies
+// within −2^15 .. 2^15 − 1 (7.4.8 / 8.3.1).
+func (r *H265STRPS) checkRange(c coder) {
+	for _, d := range r.DeltaPocS0 {
+		if d < -32768 {
+			c.fail("DeltaPocS0 %d below -2^15", d)
+			return
+		}
+	}
+	for _, d := range r.DeltaPocS1 {
+		if d > 32767 {
+			c.fail("DeltaPocS1 %d above 2^15-1", d)
+			return
+		}
 	}
 }
 
